@@ -8,7 +8,7 @@
   sequence, they hold after any number of crashes at any storage operations, with any recovery
   and follow-up activity — no bound on histories, clients or crash points.
 -/
-import Zed.Proofs.StoreJournal
+import Zed.Proofs.StoreTables
 namespace Zed.Props.C17
 open Zed.Store
 
@@ -69,6 +69,30 @@ theorem crash_wedged (j : Nat) (s : Sys) (h : Reach j s) (e c0 : Nat)
   subst hee
   obtain ⟨hw, hH⟩ := wedged_run ls ⟨he', hbehind, hwho⟩ hn hstop
   exact ⟨hH, hw.inv.range⟩
+
+/-- **crash_readable** — after any crashes the journal replays without error up to HEAD: a cold
+    reader gets a table, namely the one before or after the interrupted commit. -/
+theorem crash_readable (j : Nat) (s : Sys) (h : Reach j s) : ∃ t, visibleTable s.store j = some t := by
+  obtain ⟨e, h1, h2⟩ := h.inv12
+  exact h2.wf.tableAt_some _ h1.he
+
+/-- **crash_live_partial** — guard: the crash point is outside the [entry put, HEAD put] window,
+    i.e. HEAD is the journal end (entry HEAD+1 does not exist).  Then `CommitAt(HEAD)` of a client
+    that has loaded HEAD succeeds when run alone: two storage operations later the entry exists,
+    HEAD is advanced and the procedure has ended.  (The full `crash_live` — for every crash
+    point — is false: `not_crash_live`.) -/
+theorem crash_live_partial (j : Nat) (s : Sys) (h : Reach j s) (c slot pos : Nat) (op : JOp) (a : Nat)
+    (hon : (s.cl c).onJ j = some (slot, .putx pos)) (hk : (s.cl c).kindOn j = some (.commit op a))
+    (hguard : s.store (.ent j (pos + 1)) = none) :
+    let s2 := ((s.step c).1.step c).1
+    headOf s2.store j = pos + 1 ∧ s2.store (.ent j (pos + 1)) = some (.entry op.acts) ∧
+      (s2.cl c).pcOn j = none :=
+  commit_at_end_succeeds h c slot pos op a hon hk hguard
+
+/-- Non-vacuity of `crash_live_partial`: on a fresh lake client 0 reaches `putx 0` after one
+    storage operation and the guard holds. -/
+example : (((Sys.init.run [.start 0 (.commit 0 0 (.insert 1 7)), .step 0]).cl 0).onJ 0 = some (0, .putx 0)) ∧
+    (Sys.init.run [.start 0 (.commit 0 0 (.insert 1 7)), .step 0]).store (.ent 0 1) = none := by decide
 
 /-! ### `crash_live` is false of the current code (DESIGN §11 item 7; replayed on the real code
     by the harness, key C17:live:head-behind-journal-end)
